@@ -192,4 +192,7 @@ def untranslated : List String := []
 /-- names of the translated definitions -/
 def translated : List String := ["IncCurrent_supplyLimit_1(coin,limit_Limit)", "IncCurrent_guard_1(supplyLimit,supply_CurrentSupply,coin)", "IncCurrent_cond_2(limit_TimeLimited)", "IncCurrent_timeBasedSupplyLimit_1(coin,limit_TimeBasedLimit)", "IncCurrent_guard_3(timeBasedSupplyLimit,supply_TimeLimitedCurrentSupply,coin)", "IncCurrent_supply_TimeLimitedCurrentSupply_1(supply_TimeLimitedCurrentSupply,coin)", "IncCurrent_supply_CurrentSupply_1(supply_CurrentSupply,coin)", "DecCurrent_guard_1(supply_CurrentSupply,coin)", "DecCurrent_supply_CurrentSupply_1(supply_CurrentSupply,coin)", "IncIncoming_totalSupply_1(supply_CurrentSupply,supply_IncomingSupply)", "IncIncoming_supplyLimit_1(coin,limit_Limit)", "IncIncoming_guard_1(supplyLimit,totalSupply,coin)", "IncIncoming_cond_2(limit_TimeLimited)", "IncIncoming_timeLimitedTotalSupply_1(supply_TimeLimitedCurrentSupply,supply_IncomingSupply)", "IncIncoming_timeBasedSupplyLimit_1(coin,limit_TimeBasedLimit)", "IncIncoming_guard_3(timeBasedSupplyLimit,timeLimitedTotalSupply,coin)", "IncIncoming_supply_IncomingSupply_1(supply_IncomingSupply,coin)", "DecIncoming_guard_1(supply_IncomingSupply,coin)", "DecIncoming_supply_IncomingSupply_1(supply_IncomingSupply,coin)", "IncOutgoing_guard_1(supply_CurrentSupply,supply_OutgoingSupply,coin)", "IncOutgoing_supply_OutgoingSupply_1(supply_OutgoingSupply,coin)", "DecOutgoing_guard_1(supply_OutgoingSupply,coin)", "DecOutgoing_supply_OutgoingSupply_1(supply_OutgoingSupply,coin)", "createHTLT_guard_1(read_len_amount)", "createHTLT_guard_2(amount_0,asset_MinSwapAmount,asset_MaxSwapAmount)", "createHTLT_guard_3(timestamp,pastTimestampLimit,futureTimestampLimit)", "createHTLT_cond_4(read_sender_Equals_deputyAddress)", "createHTLT_guard_5(read_to_Equals_deputyAddress)", "createHTLT_guard_6(read_to_Equals_deputyAddress)", "createHTLT_call_IncrementIncomingAssetSupply_1_arg1(amount_0)", "createHTLT_guard_7(timeLock,asset_MinBlockLock,asset_MaxBlockLock)", "createHTLT_guard_8(amount_0,asset_FixedFee,asset_MinSwapAmount)", "createHTLT_call_IncrementOutgoingAssetSupply_1_arg1(amount_0)", "claimHTLT_call_DecrementIncomingAssetSupply_1_arg1(htlc_Amount_0)", "claimHTLT_call_IncrementCurrentAssetSupply_1_arg1(htlc_Amount_0)", "claimHTLT_call_DecrementOutgoingAssetSupply_1_arg1(htlc_Amount_0)", "claimHTLT_call_DecrementCurrentAssetSupply_1_arg1(htlc_Amount_0)", "refundHTLT_call_DecrementIncomingAssetSupply_1_arg1(amount_0)", "refundHTLT_call_DecrementOutgoingAssetSupply_1_arg1(amount_0)", "UpdateWindow_newTimeElapsed_1(supply_TimeElapsed,timeElapsed)", "UpdateWindow_cond_1(asset_SupplyLimit_TimeLimited,newTimeElapsed,asset_SupplyLimit_TimePeriod)", "UpdateWindow_supply_TimeElapsed_1(newTimeElapsed)", "UpdateWindow_supply_TimeElapsed_2()"]
 
+/-- every rejecting guard of the translated functions, in source order -/
+def guards : List String := ["IncCurrent: !found", "IncCurrent: limit, err := k.GetSupplyLimit(ctx, coin.Denom); err != nil", "IncCurrent: supplyLimit.IsLT(supply.CurrentSupply.Add(coin))", "IncCurrent: timeBasedSupplyLimit.IsLT(supply.TimeLimitedCurrentSupply.Add(coin))", "DecCurrent: !found", "DecCurrent: supply.CurrentSupply.Amount.Sub(coin.Amount).IsNegative()", "IncIncoming: !found", "IncIncoming: limit, err := k.GetSupplyLimit(ctx, coin.Denom); err != nil", "IncIncoming: supplyLimit.IsLT(totalSupply.Add(coin))", "IncIncoming: timeBasedSupplyLimit.IsLT(timeLimitedTotalSupply.Add(coin))", "DecIncoming: !found", "DecIncoming: supply.IncomingSupply.Amount.Sub(coin.Amount).IsNegative()", "IncOutgoing: !found", "IncOutgoing: supply.CurrentSupply.IsLT(supply.OutgoingSupply.Add(coin))", "DecOutgoing: !found", "DecOutgoing: supply.OutgoingSupply.Amount.Sub(coin.Amount).IsNegative()", "createHTLT: len(amount) != 1", "createHTLT: asset, err := k.GetAsset(ctx, amount[0].Denom); err != nil", "createHTLT: err = k.ValidateLiveAsset(ctx, amount[0]); err != nil", "createHTLT: amount[0].Amount.LT(asset.MinSwapAmount) || amount[0].Amount.GT(asset.MaxSwapAmount)", "createHTLT: timestamp < uint64(pastTimestampLimit) || timestamp >= uint64(futureTimestampLimit)", "createHTLT: to.Equals(deputyAddress)", "createHTLT: !to.Equals(deputyAddress)", "createHTLT: err := k.IncrementIncomingAssetSupply(ctx, amount[0]); err != nil", "createHTLT: timeLock < asset.MinBlockLock || timeLock > asset.MaxBlockLock", "createHTLT: amount[0].Amount.LT(asset.FixedFee.Add(asset.MinSwapAmount))", "createHTLT: err := k.IncrementOutgoingAssetSupply(ctx, amount[0]); err != nil", "createHTLT: err := k.bankKeeper.SendCoinsFromAccountToModule(ctx, sender, types.ModuleName, amount); err != nil", "claimHTLT: err := k.DecrementIncomingAssetSupply(ctx, htlc.Amount[0]); err != nil", "claimHTLT: err := k.IncrementCurrentAssetSupply(ctx, htlc.Amount[0]); err != nil", "claimHTLT: err := k.bankKeeper.MintCoins(ctx, types.ModuleName, htlc.Amount); err != nil", "claimHTLT: err := k.bankKeeper.SendCoinsFromModuleToAccount(ctx, types.ModuleName, toAddr, htlc.Amount); err != nil", "claimHTLT: err := k.DecrementOutgoingAssetSupply(ctx, htlc.Amount[0]); err != nil", "claimHTLT: err := k.DecrementCurrentAssetSupply(ctx, htlc.Amount[0]); err != nil", "claimHTLT: err := k.bankKeeper.BurnCoins(ctx, types.ModuleName, htlc.Amount); err != nil", "refundHTLT: err := k.DecrementIncomingAssetSupply(ctx, amount[0]); err != nil", "refundHTLT: err := k.DecrementOutgoingAssetSupply(ctx, amount[0]); err != nil", "refundHTLT: err := k.bankKeeper.SendCoinsFromModuleToAccount(ctx, types.ModuleName, sender, amount); err != nil", "Keeper.CreateHTLC: k.HasHTLC(ctx, id)", "Keeper.CreateHTLC: direction, err = k.createHTLT( ctx, sender, to, receiverOnOtherChain, senderOnOtherChain, amount, hashLock, timestamp, timeLock, ); err != nil", "Keeper.CreateHTLC: err = k.createHTLC(ctx, sender, amount); err != nil", "Keeper.ClaimHTLC: !found", "Keeper.ClaimHTLC: htlc.State != types.Open", "Keeper.ClaimHTLC: !bytes.Equal(types.GetHashLock(secret, htlc.Timestamp), hashLock)", "Keeper.ClaimHTLC: to, err := sdk.AccAddressFromBech32(htlc.To); err != nil", "Keeper.ClaimHTLC: err := k.claimHTLT(ctx, htlc); err != nil", "Keeper.ClaimHTLC: err := k.claimHTLC(ctx, htlc.Amount, to); err != nil", "Keeper.RefundHTLC: sender, err := sdk.AccAddressFromBech32(h.Sender); err != nil", "Keeper.RefundHTLC: err := k.refundHTLT(ctx, h.Direction, sender, h.Amount); err != nil", "Keeper.RefundHTLC: err := k.refundHTLC(ctx, sender, h.Amount); err != nil", "Keeper.ValidateLiveAsset: asset, err := k.GetAsset(ctx, coin.Denom); err != nil", "Keeper.ValidateLiveAsset: !asset.Active", "msgServer.CreateHTLC: sender, err := sdk.AccAddressFromBech32(msg.Sender); err != nil", "msgServer.CreateHTLC: to, err := sdk.AccAddressFromBech32(msg.To); err != nil", "msgServer.CreateHTLC: hashLock, err := hex.DecodeString(msg.HashLock); err != nil", "msgServer.CreateHTLC: m.k.blockedAddrs[to.String()]", "msgServer.CreateHTLC: to.Equals(m.k.accountKeeper.GetModuleAddress(types.ModuleName))", "msgServer.CreateHTLC: id, err := m.k.CreateHTLC( ctx, sender, to, msg.ReceiverOnOtherChain, msg.SenderOnOtherChain, msg.Amount, hashLock, msg.Timestamp, msg.TimeLock, msg.Transfer, ); err != nil", "msgServer.ClaimHTLC: id, err := hex.DecodeString(msg.Id); err != nil", "msgServer.ClaimHTLC: secret, err := hex.DecodeString(msg.Secret); err != nil", "msgServer.ClaimHTLC: hashLock, transfer, direction, err := m.k.ClaimHTLC(ctx, id, secret); err != nil"]
+
 end Irismod.Gen.PureHtlc
